@@ -1,4 +1,5 @@
 import Hyeong.Lemmas.NumProof
+import Hyeong.Lemmas.NumLRefine
 /-!
 # C06 — rationals compute exactly, stay canonical, NaN is absorbing
 
@@ -82,6 +83,24 @@ theorem display_canon (a : NumI) (ha : Canon a) :
     simp [display, canon_not_nan ha, ← hden]
   · intro h
     simp [display, canon_not_nan ha, h]
+
+/-- The tie of "`Num` over `Int`" to `num.rs` as written: `HyNL` is `num.rs` transcribed literally over the
+limb model of `big_number.rs` (fields `up`, `down : BigNum`; `optimize` calls `BigNum::gcd`, `minus`, `/=`;
+`add`/`mul` the limb operations; `flip`, `floor`, `is_pos`, `partial_cmp` as in the source). For operands
+whose fields satisfy the representation invariant, every operation of `HyNL` yields fields satisfying it
+and, read as integers, is exactly the `Int`-level operation the theorems above are about (through C05). -/
+theorem limb_level_refines {a b : HyNL.NumL} (ha : HyNL.WFL a) (hb : HyNL.WFL b) :
+    (HyNL.WFL (HyNL.add a b) ∧ HyNL.toNumI (HyNL.add a b) = add (HyNL.toNumI a) (HyNL.toNumI b)) ∧
+    (HyNL.WFL (HyNL.mul a b) ∧ HyNL.toNumI (HyNL.mul a b) = mul (HyNL.toNumI a) (HyNL.toNumI b)) ∧
+    (HyNL.WFL (HyNL.neg a) ∧ HyNL.toNumI (HyNL.neg a) = neg (HyNL.toNumI a)) ∧
+    (HyNL.WFL (HyNL.flip a) ∧ HyNL.toNumI (HyNL.flip a) = flip (HyNL.toNumI a)) ∧
+    (HyB.toInt a.down ≠ 0 → HyB.WF (HyNL.floor a) ∧ HyB.toInt (HyNL.floor a) = floor (HyNL.toNumI a)) ∧
+    (HyB.toInt a.down ≠ 0 → HyNL.WFL (HyNL.optimize a) ∧ HyNL.toNumI (HyNL.optimize a) = optimize (HyNL.toNumI a)) ∧
+    HyNL.isPos a = isPos (HyNL.toNumI a) ∧ HyNL.isNan a = isNan (HyNL.toNumI a) ∧
+    HyNL.cmp a b = cmp (HyNL.toNumI a) (HyNL.toNumI b) :=
+  ⟨HyNL.add_refines ha hb, HyNL.mul_refines ha hb, ⟨(HyNL.neg_refines ha).1, (HyNL.neg_refines ha).2.1⟩, HyNL.flip_refines ha,
+   fun h => HyNL.floor_refines ha h, fun h => HyNL.optimize_refines ha h, HyNL.isPos_refines ha, HyNL.isNan_iff ha,
+   HyNL.cmp_refines ha hb⟩
 
 /-- non-vacuity / regression witnesses (D2): with the defect these evaluated to a negative
 denominator -/
